@@ -46,6 +46,7 @@ def gen_reference(rng, idx):
   names = iter([f"conv_a{idx}", f"conv_b{idx}", f"blk1_x{idx}", f"blk1_y{idx}", f"dense_mid{idx}", f"kernel_proj{idx}", f"head{idx}"])
   rng.shuffle(l := list(names))
   names = iter(l)
+  uniq = iter(range(10 ** 6))          # unique suffixes for the unnamed helper layers
   if kind == 0:
     inp = Input((6,), name=f"in{idx}")
     x = inp
@@ -62,9 +63,9 @@ def gen_reference(rng, idx):
       elif t == 2:
         x = L.DepthwiseConv2D(3, padding="same", activation=pick(rng, acts), use_bias=bool(rng.integers(0, 3)), name=next(names))(x)
       else:
-        x = L.BatchNormalization(name=f"bn{idx}_{int(rng.integers(0, 99))}")(x)
+        x = L.BatchNormalization(name=f"bn{idx}_{next(uniq)}")(x)
       if rng.integers(0, 2):
-        x = L.Activation(pick(rng, ["relu", "linear", "tanh"]), name=f"act{idx}_{int(rng.integers(0, 999))}")(x)
+        x = L.Activation(pick(rng, ["relu", "linear", "tanh"]), name=f"act{idx}_{next(uniq)}")(x)
     x = L.Flatten(name=f"flat{idx}")(x)
   else:
     inp = Input((10, 2), name=f"in{idx}")
@@ -73,7 +74,7 @@ def gen_reference(rng, idx):
   for _ in range(int(rng.integers(1, 3))):
     x = L.Dense(int(rng.integers(2, 5)), activation=pick(rng, acts), use_bias=bool(rng.integers(0, 3)), name=next(names))(x)
     if rng.integers(0, 3) == 0:
-      x = L.Activation(pick(rng, ["relu", "linear"]), name=f"act{idx}_{int(rng.integers(0, 999))}")(x)
+      x = L.Activation(pick(rng, ["relu", "linear"]), name=f"act{idx}_{next(uniq)}")(x)
   x = L.Dense(3, name=f"out{idx}")(x)
   x = L.Activation("softmax", name=f"softmax{idx}")(x)
   return Model(inp, x, name=f"ref{idx}")
